@@ -29,7 +29,7 @@ for prop in sorted(os.listdir(out)):
         sid = "%s-r%d-%s" % (prop, rnd, m)
         dst = os.path.join("/verif/seeded", sid)
         os.makedirs(dst, exist_ok=True)
-        for f in ("patch.diff", "demo.cpp", "notes.md", "demo_flags"):
+        for f in ("patch.diff", "demo.cpp", "notes.md", "demo_flags", "demo_run"):
             if os.path.exists(os.path.join(d, f)):
                 shutil.copy(os.path.join(d, f), os.path.join(dst, f))
         notes = open(os.path.join(d, "notes.md")).read() if os.path.exists(os.path.join(d, "notes.md")) else ""
